@@ -64,6 +64,7 @@ def plan(tier, seed):
         items.append({"kind": "concurrent_sweep", "pair": pi, "step": 2 if tier == "quick" else 1,
                       "exhaustive": "two connections at once: the thread with default options pre-empted at every traced line of its connect() "
                                     "in favour of a thread that relaxes a check (4 option pairs)" if tier != "quick" else None})
+    items.append({"kind": "spelling", "exhaustive": "scheme spelled WSS / Wss / wSs x certificate x name x cert_reqs x route"})
     items.append({"kind": "none_values", "exhaustive": "unset sslopt keys given as None x cert_reqs x anchors x certificate x name"})
     items.append({"kind": "sslver", "exhaustive": "ssl_version {PROTOCOL_TLS, TLSv1_2, TLS_CLIENT} x certificate x name x cert_reqs x check_hostname x anchors"})
     items.append({"kind": "sysstore", "exhaustive": "system trust store holding the sim CA x certificate x name x cert_reqs x check_hostname x {no anchor option, foreign CA file}"})
@@ -95,6 +96,10 @@ def expand(item, seed):
             if proxy and (host not in ("good.sim.test", "other.sim.test") or ea != "none"):
                 continue
             yield _sc(cert=cert, cert_reqs=cr, check_hostname=ch, opt_anchor=oa, env_anchor=ea, host=host, proxy=proxy)
+    elif k == "spelling":
+        for sp in ("WSS", "Wss", "wSs"):
+            for cert, host, cr, proxy in itertools.product(("good", "foreign-good"), ("good.sim.test", "other.sim.test"), (None, "NONE"), (False, True)):
+                yield _sc(cert=cert, host=host, cert_reqs=cr, opt_anchor="ca_file", proxy=proxy, scheme_spelling=sp)
     elif k == "none_values":
         for cert, cr, oa, host in itertools.product(CERT_ISSUER, (None, "NONE", "REQUIRED"), ("none", "ca_file", "ca_dir"), HOSTS):
             yield _sc(cert=cert, cert_reqs=cr, opt_anchor=oa, host=host, none_values=True)
@@ -161,6 +166,8 @@ def _gen_single(rng):
         sc["server_hostname"] = rng.choice(("good.sim.test", "other.sim.test", "a.wild.sim.test"))
     if rng.random() < 0.15:
         sc["none_values"] = True
+    if sc["scheme"] == "wss" and rng.random() < 0.05:
+        sc["scheme_spelling"] = rng.choice(("WSS", "Wss", "wSs"))
     if rng.random() < 0.15:
         sc["context"] = rng.choice(("default_ca", "default_sys", "noverify", "nohost_ca"))
     elif rng.random() < 0.3:
@@ -404,6 +411,9 @@ def _run_one(sc, shared, index=0):
         if sh is not None and sh not in HOSTS:
             raise InvalidScenario("server_hostname")
         proxy = bool(sc.get("proxy"))
+        spelling = sc.get("scheme_spelling")
+        if spelling is not None and (scheme != "wss" or spelling not in ("WSS", "Wss", "wSs")):
+            raise InvalidScenario("scheme_spelling")
     except (KeyError, TypeError, ValueError) as e:
         raise InvalidScenario(str(e))
     tls = scheme == "wss"
@@ -488,7 +498,7 @@ def _run_one(sc, shared, index=0):
         c = ws.WebSocket(sslopt=sslopt)
         c.settimeout(3)
         try:
-            c.connect(f"{scheme}://{host}/", **kw)
+            c.connect(f"{spelling or scheme}://{host}/", **kw)
             outcome = ("ok",)
         except SimAbort:
             outcome = ("abort", w.k.abort_reason)
@@ -537,6 +547,14 @@ def _run_one(sc, shared, index=0):
             anchors.add(ANCHORS[ea][2])
         elif sys_store == "sim_ca":
             anchors.add("ca")  # nothing configured: the (simulated) system store decides
+    if spelling is not None:
+        # a scheme is case-insensitive (RFC 3986): "WSS://" may be refused as not the literal "wss" (ValueError, nothing
+        # contacted) or be treated as wss in every respect - but never be taken for a secure URL and then sent in the clear
+        res.probes["scheme_spelled_in_capitals"] = 1
+        if outcome[0] == "exc" and outcome[3] and not tls_peers and not origin_peers and len(w.net.sockets) == nsock0:
+            res.sig = repr(("spelling_refused", spelling))
+            res.nontrivial = True
+            return res
     contradictory = (not ctxkind) and cr == "NONE" and ch is True
     name = sh or host
     trusted = CERT_ISSUER[cert] in anchors
